@@ -9,6 +9,10 @@ if len(sys.argv) > 1:
             e = res.setdefault(m.group(1), {"checks": {}})
             e.update({"patch": m.group(2), "demo_clean": m.group(3), "demo_mutant": m.group(4)})
             e["checks"].update(dict(x.split("=") for x in (m.group(5) or "").split()))
+resp = {}
+rp = "/verif/seeded/responses.json"
+if os.path.exists(rp):
+    resp = json.load(open(rp))
 head = subprocess.check_output(["git", "-C", "/repo", "rev-parse", "HEAD"], text=True).strip()
 for name in sorted(os.listdir("/verif/seeded")):
     d = os.path.join("/verif/seeded", name)
@@ -43,5 +47,11 @@ for name in sorted(os.listdir("/verif/seeded")):
         meta["detected_by"] = {k: ("VIOLATION (exit 1)" if v == "1" else "not reported (exit %s)" % v) for k, v in r["checks"].items()}
     elif "detected_by" in old:
         meta["rechecked_at_repo_head"] = old.get("rechecked_at_repo_head"); meta["detected_by"] = old["detected_by"]
+    if name in resp:
+        meta["history"] = resp[name]
+    elif "history" in old:
+        meta["history"] = old["history"]
+    if not r and "detected_by" not in meta and "detected_by" in old:
+        meta["detected_by"] = old["detected_by"]
     json.dump(meta, open(mp, "w"), indent=1, ensure_ascii=False)
 print("ok")
